@@ -44,7 +44,9 @@ def query_world(k, rng):
     w = worlds.scope_world(rng)
     docs_ = [w.resource([l[0]]) for l in w.lex]
     return {'id': k, 'docs': docs_, 'scope': rng.choice(['a:1', 'a:1 x:1', 'u:1', 'a:*']),
-            'expand': rng.choice(['', 'a:1', '*']), 'corpus': ['cat', 'dog', 'cat'],
+            'expand': rng.choice(['', 'a:1', '*']),
+            # (lemmas of the world itself: the information content is then not trivial)
+            'corpus': ['cat', 'dog', 'cat'] + [e[3] for e in w.entries][:6],
             'queries': ['cat', 'Cat', 'dogs']}
 
 
@@ -68,7 +70,7 @@ def expand_world(k, rng):
         expand = None
     docs_ = [w.resource([l[0]]) for l in w.lex]
     return {'id': k, 'docs': docs_, 'scope': 'l:1', 'expand': expand,
-            'corpus': ['cat', 'dog'], 'queries': ['cat']}
+            'corpus': ['cat', 'dog'] + [e[3] for e in w.entries][:6], 'queries': ['cat']}
 
 
 def doc_world(k, rng):
